@@ -36,6 +36,8 @@ type report struct {
 	MapSites     []string `json:"map_sites"`
 	SkippedSites []string `json:"skipped_sites"`
 	UsesSync     []string `json:"uses_sync"`
+	SyncModelled []string `json:"sync_modelled"`   // sync.X rewritten to its verifrt model
+	SyncUnmodel  []string `json:"sync_unmodelled"` // sync.X / sync/atomic uses left alone
 	UsesGo       []string `json:"uses_go"`
 	UsesChan     []string `json:"uses_chan"`
 	Globals      []string `json:"globals"`
@@ -145,6 +147,8 @@ func main() {
 	wl("MapSites", rep.MapSites)
 	wl("SkippedSites", rep.SkippedSites)
 	wl("UsesSync", rep.UsesSync)
+	wl("SyncModelled", rep.SyncModelled)
+	wl("SyncUnmodelled", rep.SyncUnmodel)
 	wl("UsesGo", rep.UsesGo)
 	wl("UsesChan", rep.UsesChan)
 	fb.WriteString("}\n")
@@ -200,6 +204,43 @@ func instrumentFile(pkg *packages.Package, f *ast.File, src []byte, short string
 		if p == "sync" || p == "sync/atomic" {
 			rep.UsesSync = append(rep.UsesSync, pos(imp.Pos())+" "+p)
 		}
+	}
+
+	// sync types that have a model in verifrt are replaced by it; every other use of the package is reported
+	modelled := map[string]bool{"Mutex": true, "RWMutex": true, "Once": true, "Pool": true, "Map": true}
+	importsSync := false
+	for _, imp := range f.Imports {
+		if strings.Trim(imp.Path.Value, "\"") == "sync" {
+			importsSync = true
+		}
+	}
+	rewrote := false
+	ast.Inspect(f, func(n ast.Node) bool {
+		sel, ok := n.(*ast.SelectorExpr)
+		if !ok {
+			return true
+		}
+		id, ok := sel.X.(*ast.Ident)
+		if !ok {
+			return true
+		}
+		pn, ok := pkg.TypesInfo.Uses[id].(*types.PkgName)
+		if !ok || pn.Imported().Path() != "sync" {
+			return true
+		}
+		if modelled[sel.Sel.Name] {
+			edits = append(edits, edit{off(sel.Pos()), off(sel.End()), "verifrt." + sel.Sel.Name})
+			rep.SyncModelled = append(rep.SyncModelled, pos(sel.Pos())+" sync."+sel.Sel.Name)
+			rewrote = true
+		} else {
+			rep.SyncUnmodel = append(rep.SyncUnmodel, pos(sel.Pos())+" sync."+sel.Sel.Name)
+		}
+		return true
+	})
+	if importsSync && rewrote {
+		// keep the import used
+		end := off(f.End())
+		edits = append(edits, edit{end, end, "\nvar _ sync.Locker\n"})
 	}
 
 	var funcStack []string
